@@ -78,6 +78,8 @@ pub mod editor;
 pub mod overlay_mask;
 pub mod paint;
 pub mod util;
+#[cfg(icy_engine_verif)]
+pub mod verif_hooks;
 
 use i18n_embed::{
     fluent::{fluent_language_loader, FluentLanguageLoader},
